@@ -180,9 +180,7 @@ theorem restrictTo_wf (s : Series) (p : Array (Int × Int)) (hr : s.rows.size = 
     simp only at he ⊢
     split
     · rename_i h0; simp [h0] at he
-    · split
-      · rename_i h0; simp [h0] at he
-      · rfl
+    · rfl
 
 /-- **every member is restricted to the group support**: each member of a group built without
 `bypass_check` on a canonical support is well formed (C04) and, when it has samples, carries exactly
@@ -271,13 +269,9 @@ theorem new_self (s : Series) (h : WF s) (hne : 0 < s.t.size) : Series.new s.t s
   obtain ⟨hs, hr, hc, hin⟩ := h
   unfold Series.new
   simp only [sortArr_of_sorted s.t hs]
-  have h0 : ¬ s.t.size = 0 := by omega
-  simp only [h0, if_false]
-  have hix := jitrestrict_all s.t _ _ (pairs_size s.sup) hs (canon_of_canonicalPairs _ hc) hin
-  have hnz : ¬ (jitrestrict s.t (pairsSt s.sup) (pairsEn s.sup) (pairs_size s.sup)).size = 0 := by
-    rw [hix, Array.size_range]; exact h0
-  simp only [hnz, if_false]
-  rw [hix, gatherI_range, gatherN_range _ _ hr]
+  split
+  · omega
+  · rw [jitrestrict_all s.t _ _ _ hs (canon_of_canonicalPairs _ hc) hin, gatherI_range, gatherN_range _ _ hr]
 
 
 theorem restrictTo_self (s : Series) (h : WF s) (hne : 0 < s.t.size) : s.restrictTo s.sup = s := by
